@@ -144,9 +144,16 @@ def build(gen, dim, R, n):
     elif gen == "cross":
         # both segments pass through the lattice point o (possibly ending there)
         o, u, v = P(), D.vec(dim, 2, True), D.vec(dim, 2, True)
+        if dim == 3 and D.below(3) == 0:
+            # directions whose projections on one coordinate plane are parallel (or vanish)
+            # although the segments are not: exercises the choice of the projection plane
+            m = D.int(-2, 2)
+            v = [m * x for x in u]
+            v[ax] += D.choice([1, -1, 2, -2])
+            fix = True
         if fix:
             v = _unparallel(u, v, ax)
-        i, j, k, l = D.int(0, 3), D.int(0, 3), D.int(0, 3), D.int(0, 3)
+        i, j, k, l =D.int(0, 3), D.int(0, 3), D.int(0, 3), D.int(0, 3)
         if i + j == 0:
             j = 1
         if k + l == 0:
